@@ -34,6 +34,86 @@ def showState (s : State) (d : Done) : String :=
 def parseKind? (s : String) : Option Kind :=
   if s = "C" then some .inter else if s = "F" then some .final else if s = "A" then some .abort else none
 
+/-! arm tags: which branch / boundary of the model an op exercised (GUIDE "Arm coverage") -/
+
+def tagged (r : String) (arms : List String) : String :=
+  if arms.isEmpty then r else r ++ " @@ " ++ ",".intercalate arms
+
+def sweepArms (pre : State) : List String :=
+  let ex := pre.pending.filter (fun p => p.expired)
+  let rest := pre.pending.filter (fun p => !p.expired)
+  [if ex.isEmpty then "sweep-expired-none" else if ex.length = 1 then "sweep-expired-one" else "sweep-expired-many"]
+  ++ (if ex.any (fun p => p.deadline == 0) then ["sweep-deadline-zero"] else [])
+  ++ (if ex.any (fun p => p.deadline < 0) then ["sweep-deadline-neg"] else [])
+  ++ (match minDeadline rest with
+      | none => ["sweep-next-none"]
+      | some m => if (rest.filter (fun p => p.deadline == m)).length > 1 then ["sweep-next-tie"] else ["sweep-next-some"])
+
+def pumpArms (pre : State) : List String :=
+  let s1 := (sweep pre).1
+  let n := s1.pending.length
+  (if (sweep pre).2.isEmpty then ["pump-no-timeouts"] else ["pump-timeouts"]) ++
+  (if s1.maxInflight = 0 then ["pump-gate-zero"] else []) ++
+  (if s1.maxInflight > n then
+    (if n + 1 = s1.maxInflight then ["pump-gate-open-last"] else ["pump-gate-open"]) ++
+    (match s1.queue with
+     | q :: _ =>
+       (match q.req with
+        | some _ => if q.late then ["pump-sent-callback-late"] else ["pump-sent-callback-ontime"]
+        | none => ["pump-sent-nocallback"])
+     | [] => if s1.closed then ["pump-none-closed"] else ["pump-idle"])
+   else
+    (if n = s1.maxInflight then ["pump-gate-full-eq"] else ["pump-gate-full-gt"]) ++
+    (if s1.queue.isEmpty then ["pump-full-empty"] else ["pump-full-queued"]))
+
+def chunkArms (pre : State) (c : Chunk) : List String :=
+  match findRid pre.pending c.rid with
+  | none => ["chunk-unknown"]
+  | some p =>
+    (if p.expired then ["chunk-known-expired"] else []) ++
+    (match c.kind with
+    | .inter =>
+      let n := p.chunks.length + 1
+      if pre.maxPending = 0 then ["chunk-inter-unlimited"]
+      else if n > pre.maxPending then ["chunk-inter-over-limit"]
+      else if n = pre.maxPending then ["chunk-inter-at-limit"] else ["chunk-inter-below-limit"]
+    | .abort => if p.chunks.isEmpty then ["chunk-abort"] else ["chunk-abort-with-stored"]
+    | .final =>
+      let all := p.chunks ++ [c]
+      let merged := mergeChunks all
+      (if all.length = 1 then ["chunk-final-single"] else ["chunk-final-multi"]) ++
+      (if merged.length < all.length then ["chunk-final-dropped"] else []) ++
+      (if all.length > 1 ∧ sortBySeq all ≠ all then ["chunk-final-reordered"] else []) ++
+      (match merged with
+       | [] => []
+       | f :: _ =>
+         if f.seq < pre.lastSeq + 1 then ["chunk-seq-replay"]
+         else
+          (if f.seq = pre.lastSeq + 1 then ["chunk-seq-next"] else ["chunk-seq-gap"]) ++
+          (match decodeMerged merged with
+           | some _ => if f.total < merged.length then ["chunk-decode-ok-extra"] else ["chunk-decode-ok"]
+           | none =>
+             if !kindsOk merged then ["chunk-decode-kinds"]
+             else if f.idx != 0 then ["chunk-decode-notfirst"] else ["chunk-decode-short"])))
+
+def closeArms (pre : State) (st : Nat) : List String :=
+  [if st / 0x40000000 = 0 then "close-good" else if st / 0x80000000 = 0 then "close-uncertain" else "close-bad"] ++
+  (if pre.closed then ["close-again"] else []) ++
+  (if pre.pending.isEmpty ∧ pre.queue.isEmpty then ["close-empty"] else []) ++
+  (if !pre.pending.isEmpty then ["close-pending"] else []) ++
+  (if pre.queue.any (fun q => q.req.isSome) then ["close-queued"] else []) ++
+  (if pre.queue.any (fun q => q.req.isNone) then ["close-queued-nr"] else [])
+
+def wakeArms (pre : State) : List String :=
+  let (s1, d1) := sweep pre
+  (if d1.isEmpty then [] else ["wake-presweep"]) ++
+  (match nextTimeout s1 with
+   | none => ["wake-none"]
+   | some t =>
+     let due := s1.pending.filter (fun p => p.deadline == t)
+     (if due.length > 1 then ["wake-tie"] else ["wake-one"]) ++
+     (if s1.pending.length > due.length then ["wake-others-remain"] else ["wake-all-due"]))
+
 def dstep (s : State) (toks : List String) : State × String :=
   match toks with
   | ["reset", mi, mp] =>
@@ -42,7 +122,10 @@ def dstep (s : State) (toks : List String) : State × String :=
     | _, _ => (s, "bad-op")
   | ["submit", late] =>
     match parseBool? late with
-    | some l => let (s', d) := submit s l; (s', "ok " ++ showState s' d)
+    | some l =>
+      let (s', d) := submit s l
+      (s', tagged ("ok " ++ showState s' d)
+        [if s.closed then "submit-closed" else if l then "submit-open-late" else "submit-open-ontime"])
     | none => (s, "bad-op")
   | ["pump"] =>
     let (s', d, o) := pump s
@@ -51,39 +134,58 @@ def dstep (s : State) (toks : List String) : State × String :=
       | .none => "none"
       | .idle => "idle"
       | .full => "full"
-    (s', s!"ok {t} " ++ showState s' d)
+    (s', tagged (s!"ok {t} " ++ showState s' d) (pumpArms s))
   | ["submitnr", late] =>
     match parseBool? late with
-    | some l => let (s', d) := submitNoResponse s l; (s', "ok " ++ showState s' d)
+    | some l =>
+      let (s', d) := submitNoResponse s l
+      (s', tagged ("ok " ++ showState s' d) [if s.closed then "submitnr-closed" else "submitnr-open"])
     | none => (s, "bad-op")
   | ["sweep"] =>
     let (s', d) := sweep s
     let nx := match nextTimeout s' with
       | some k => toString k
       | none => "-"
-    (s', s!"ok next={nx} " ++ showState s' d)
+    (s', tagged (s!"ok next={nx} " ++ showState s' d) (sweepArms s))
+  | ["wake"] =>
+    let (s', d, t) := wake s
+    let nx := match t with
+      | some k => toString k
+      | none => "-"
+    (s', tagged (s!"ok at={nx} " ++ showState s' d) (wakeArms s))
   | ["deadline", rid, k] =>
     match rid.toNat?, parseInt? k with
-    | some rid, some k => let (s', b) := setDeadline s rid k; (s', s!"ok {boolStr b}")
+    | some rid, some k =>
+      let (s', b) := setDeadline s rid k
+      (s', tagged s!"ok {boolStr b}"
+        [if !b then "deadline-unknown" else if k < 0 then "deadline-past" else if k = 0 then "deadline-now" else "deadline-future"])
     | _, _ => (s, "bad-op")
-  | ["chunk", rid, seq, kind, msg, idx, total] =>
-    match rid.toNat?, seq.toNat?, parseKind? kind, msg.toNat?, idx.toNat?, total.toNat? with
-    | some rid, some seq, some k, some m, some i, some t =>
+  | "chunk" :: rid :: seq :: kind :: msg :: idx :: total :: rest =>
+    -- optional 8th token: the chunk's message type (MSG / OPN / CLO) — irrelevant to `process_chunk`
+    let mt : Option String := match rest with
+      | [] => some "M"
+      | [t] => if t = "M" ∨ t = "O" ∨ t = "C" then some t else none
+      | _ => none
+    match rid.toNat?, seq.toNat?, parseKind? kind, msg.toNat?, idx.toNat?, total.toNat?, mt with
+    | some rid, some seq, some k, some m, some i, some t, some mt =>
       if i < t then
-        let (s', d, o) := chunk s ⟨rid, seq, k, m, i, t⟩
-        (s', (if o = .ok then "ok " else "err ") ++ showState s' d)
+        let c : Chunk := ⟨rid, seq, k, m, i, t⟩
+        let (s', d, o) := chunk s c
+        (s', tagged ((if o = .ok then "ok " else "err ") ++ showState s' d) (("chunk-type-" ++ mt) :: chunkArms s c))
       else (s, "bad-op")
-    | _, _, _, _, _, _ => (s, "bad-op")
-  | ["errmsg", "ack"] => (s, "err " ++ showState s [])
-  | ["errmsg", "hello"] => (s, "err " ++ showState s [])
+    | _, _, _, _, _, _, _ => (s, "bad-op")
+  | ["errmsg", "ack"] => (s, tagged ("err " ++ showState s []) ["errmsg-ack"])
+  | ["errmsg", "hello"] => (s, tagged ("err " ++ showState s []) ["errmsg-hello"])
   | ["errmsg", code] =>
     -- `StatusCode::from_u32(code)`: a good status is not an error, anything else is
     match code.toNat? with
-    | some c => (s, (if c / 0x40000000 = 0 then "ok " else "err ") ++ showState s [])
+    | some c =>
+      (s, tagged ((if c / 0x40000000 = 0 then "ok " else "err ") ++ showState s [])
+        [if c / 0x40000000 = 0 then "errmsg-good" else "errmsg-bad"])
     | none => (s, "bad-op")
   | ["close", st] =>
     match st.toNat? with
-    | some st => let (s', d) := close s st; (s', "ok " ++ showState s' d)
+    | some st => let (s', d) := close s st; (s', tagged ("ok " ++ showState s' d) (closeArms s st))
     | none => (s, "bad-op")
   | _ => (s, "bad-op")
 
